@@ -274,6 +274,19 @@ def oracle(c, r):
         d1 = math.dist(r["tq"], me["p1"])
         if abs(d0 - d1) > tol:
             yield ("mesh-distance-invariant", what + ": distance to the box %r became %r" % (d0, d1))
+        # UV coordinates and depth of a point over a mapped plate: the same for the point handed over in another frame with the
+        # transform into the mesh frame, and for the whole scene moved
+        uv = r.get("uv")
+        if uv:
+            d = uv["direct"]
+            for name in ("via", "moved", "moved_via"):
+                o = uv[name]
+                if (d is None) != (o is None):
+                    # exactly level with the plate beyond its rim the offset is at the angle limit: either answer
+                    if abs(c["q"][2]) > 1e-9:
+                        yield ("uv-frame", what + ": uv_with_tol(%r) in the mesh frame gives %r, %s gives %r" % (c["q"], d, name, o))
+                elif d is not None and (not near(d[0], o[0], tol) or abs(d[1] - o[1]) > tol):
+                    yield ("uv-frame", what + ": uv_with_tol(%r) in the mesh frame gives %r, %s gives %r" % (c["q"], d, name, o))
         if not near(rot(list(di["dir2"]) + [0.0]), di["dir3"], 1e-12):
             yield ("distance-2d-3d", what + ": measuring direction %r became %r (directions only rotate)" % (di["dir2"], di["dir3"]))
         if abs(di["v2"] - di["v3"]) > tol or abs(di["v2"] - di["v2b"]) > tol:
